@@ -159,6 +159,7 @@ theorem linComb_size (n : Nat) (cvs : List (K × Vec K)) (b : K) (y : Vec K) (hy
 
 /-! ### one primitive instruction -/
 
+theorem upd_apply {α : Type} (f : Nat → α) (i j : Nat) (v : α) : upd f i v j = if j = i then v else f j := rfl
 theorem upd_same {α : Type} (f : Nat → α) (i : Nat) (v : α) : upd f i v i = v := by simp [upd]
 theorem upd_other {α : Type} (f : Nat → α) (i j : Nat) (v : α) (h : j ≠ i) : upd f i v j = f j := by simp [upd, h]
 
